@@ -124,6 +124,12 @@ def rule_hooks(ctx):
     ctx.ob('C15.hooks', f'{f.fq}:argument-order', ok, 'Operand reflected: selector(other, self.value)', f.node, mod)
     for h in ('_compose_unop', '_compose_narop'):
         ctx.ob('C15.hooks', f'{op.fq}.{h}:defined', h in op.methods, f'Operand must define {h}', op.node, mod)
+    f = op.methods['_compose_narop']
+    src = full(f.node)
+    ok = U.before(src, 'args = [x.value if isinstance(x, Operand) else x for x in args]', 'return type(self)(selector(self.value, *args))')
+    ctx.ob('C15.hooks', f'{f.fq}:unwraps-arguments', ok,
+           'like the binary hooks, the n-ary hook takes the value of Operand arguments before calling the kernel '
+           '(Operand(2).wrap(Operand(1), Operand(3)) otherwise computes with wrapper objects)', f.node, mod)
     sq = repo.cls('sc3.base.absobject:AbstractSequence')
     for h, want in (('_compose_binop', 'utl.list_binop(selector, self, other, type(self))'), ('_rcompose_binop', 'utl.list_binop(selector, other, self, type(self))'),
                     ('_compose_unop', 'utl.list_unop(selector, self, type(self))'), ('_compose_narop', 'utl.list_narop(selector, self, *args, t=type(self))')):
@@ -139,6 +145,31 @@ def rule_hooks(ctx):
     ok = 'return t((op(i[0], i[1]) for i in zip(a, b)))' in src and 'return t((list_binop(op, item_a, b, type(item_a)) for item_a in a))' in src and \
         'return t((list_binop(op, a, item_b, type(item_b)) for item_b in b))' in src and src.endswith('return op(a, b)')
     ctx.ob('C15.hooks', f'{lb.fq}:operand-order', ok, 'list algebra keeps (a, b) operand order on every branch', lb.node, lb.module)
+    # wrap-around: when both operands are sequences the shorter one is wrap-extended to the longer one before anything else
+    # happens (a short-cut for singletons would treat [[10, 20]] as the scalar [10, 20] and lose one nesting level)
+    body = U.body_nodoc(lb.node)
+    top = [x for x in body if isinstance(x, ast.If)]
+    ok = False
+    if top and norm(top[0].test) == 'isinstance(a, t_seq) and isinstance(b, t_seq)':
+        first = top[0].body[0]
+        ok = isinstance(first, ast.If) and norm(first.test) == 'len(a) >= len(b)' and \
+            [norm(x) for x in first.body] == ['b = wrap_extend(list(b), len(a))'] and [norm(x) for x in first.orelse] == ['a = wrap_extend(list(a), len(b))']
+        tests = []
+        node = top[0]
+        while isinstance(node, ast.If):
+            tests.append(norm(node.test))
+            node = node.orelse[0] if len(node.orelse) == 1 and isinstance(node.orelse[0], ast.If) else None
+        ok = ok and tests == ['isinstance(a, t_seq) and isinstance(b, t_seq)', 'isinstance(a, t_seq)', 'isinstance(b, t_seq)']
+    ln = repo.func('sc3.base.utils:list_narop')
+    lsrc = full(ln.node)
+    okn = U.before(lsrc, 'if isinstance(a, t_seq):', 'if any((isinstance(i, t_seq) for i in args)):', 'wrap_extend(list(i), n) if isinstance(i, t_seq) else [i] * n',
+                   'return t((op(i, *args) for i in a))') and lsrc.rstrip().endswith('return op(a, *args)')
+    ctx.ob('C15.hooks', f'{ln.fq}:zips-arguments', okn,
+           'n-ary list algebra zips sequence arguments with the sequence it maps over (wrap-around), it does not hand whole lists to the kernel',
+           ln.node, ln.module)
+    ctx.ob('C15.hooks', f'{lb.fq}:wrap-extend-first', ok,
+           'with two sequence operands the first thing list_binop does is to wrap-extend the shorter to the length of the longer '
+           '(decision order: both sequences, a sequence, b sequence, scalars)', lb.node, lb.module)
 
 
 def rule_order(ctx, rid='C15.order', families=None, least=10):
@@ -402,6 +433,13 @@ def run(ctx):
 
 
 MUTANTS = [
+    dict(rule='C15.hooks', name='(fix reverted) Operand passes Operand arguments of n-ary operators unwrapped', file='sc3/base/operand.py',
+         old="        args = [x.value if isinstance(x, Operand) else x for x in args]\n", new=""),
+    dict(rule='C15.hooks', name='(fix reverted) list_narop hands list arguments to the kernel', file='sc3/base/utils.py',
+         old="        if any(isinstance(i, t_seq) for i in args):\n", new="        if False:\n"),
+    dict(rule='C15.hooks', name='list_binop treats a singleton operand as a scalar (seed C15-d)', file='sc3/base/utils.py',
+         old="    if isinstance(a, t_seq) and isinstance(b, t_seq):\n        if len(a) >= len(b):\n            b = wrap_extend(list(b), len(a))",
+         new="    if isinstance(a, t_seq) and isinstance(b, t_seq):\n        if len(b) == 1:\n            return list_binop(op, a, b[0], t)\n        if len(a) >= len(b):\n            b = wrap_extend(list(b), len(a))"),
     dict(rule='C15.order', name='NaropStream polls its arguments without the in-value (seed C15-c)', file='sc3/base/stream.py',
          old="        args = []\n        res = None\n        for item in self.args:\n            res = item.next(inval)  # raises StopStream\n            args.append(res)\n        return self.selector(a, *args)",
          new="        args = [item.next() for item in self.args]  # raises StopStream\n        return self.selector(a, *args)"),
